@@ -11,7 +11,7 @@ PROP = {
                'advanced counter concatenate to the whole; CryptoManager::encrypt_with_key/decrypt_with_key equal the reference with counter LE32(chunk_id[0..3]) '
                'and the reported nonce.',
  'level_note': 'Trusted base: refs::chacha20 (self-checked each run against RFC 8439 2.3.2/2.4.2) and OpenSSL 3. After the wrap only the RFC-written reference is '
-               'available (OpenSSL carries into the nonce word).',
+               'available (OpenSSL carries into the nonce word). Second compiler: the same tapes also run against a g++ -O2 ASan/UBSan build of the code under test (engine \'tape-rc (second compiler…)\'), because the two compilers instrument and optimise undefined behaviour differently (e.g. abs(INT64_MIN) is only reported by g++\'s UBSan, and clang can fold such UB into a correct-looking result); failing tapes of that engine are kept as *.gcc.tape and replayed with that build.',
  'assumptions': ['RFC 8439 with a 32-bit block counter that wraps mod 2^32 is the intended cipher', 'random_device is interposed so CryptoManager nonces replay deterministically'],
- 'tiers': {'quick': [rc(40000)],
-           'thorough': [rc(150000, W), fuzz(120, 4, max_len=16 + 2 * 6)]}}
+ 'tiers': {'quick': [rc(40000), rc(40000, suffix='_gcc')],
+           'thorough': [rc(150000, W), fuzz(120, 4, max_len=16 + 2 * 6), rc(150000, 4, suffix='_gcc')]}}
